@@ -27,7 +27,9 @@ RULE = (
     "(text, options) must give equal results at every position. (c) threads: k threads each extracting its own text "
     "with the shared default tokenizer under a harness-owned cooperative scheduler (sys.settrace line events in "
     "eyecite frames, baton passed according to a Hypothesis-drawn list of run lengths) plus a free-running stress "
-    "variant; results must equal the sequential ones. Non-trivial: a text with >= 1 citation compared across >= 2 "
+    "variant, a single-preemption sweep over the first (cold) call on a geometric grid and an EXHAUSTIVE single-preemption "
+    "sweep (every line event of thread A's extraction) over pairs of small texts that use the same extractors on the warm "
+    "default tokenizer; results must equal the sequential ones. Non-trivial: a text with >= 1 citation compared across >= 2 "
     "seeds / positions / schedules, or a tie-prone text; distinct = distinct (text, options) / history / schedule"
 )
 ASSUMPTIONS = [
@@ -576,6 +578,53 @@ def _cold_sweep_items(tier):
     return [{"kind": "threads", "texts": COLD_TEXTS, "schedule": [k_, 10 ** 9], "fresh": True, "sweep": True} for k_ in ks]
 
 
+WARM_PAIRS = [
+    ["See 1 U.S. 1.", "See 2 U.S. 2, 3."],  # the same reporter extractor in both threads
+    ["Id. at 5. Bar, supra, at 7.", "Ibid. at 9. Foo, supra."],
+    ["42 U.S.C. \u00a7 1983.", "18 U.S.C. \u00a7 1 (2012)."],
+    ["Foo v. Bar, 1 U.S. 1, 5 (1999). Bar at 7.", "Roe v. Wade, 410 U.S. 113, 120 (1973). Wade at 121."],
+    ["1 Minn. L. Rev. 1.", "7 F.2d 9; 8 F.2d at 10."],
+]
+
+
+def _line_events(text):
+    """Number of line events inside eyecite frames during one (warm) extraction of `text`."""
+    import eyecite
+    from eyecite import get_citations
+
+    root = os.path.dirname(eyecite.__file__)
+    n = [0]
+
+    def local(frame, event, arg):
+        if event == "line":
+            n[0] += 1
+        return local
+
+    def glob(frame, event, arg):
+        return local if event == "call" and frame.f_code.co_filename.startswith(root) else None
+
+    get_citations(text)
+    sys.settrace(glob)
+    try:
+        get_citations(text)
+    finally:
+        sys.settrace(None)
+    return n[0]
+
+
+def _warm_sweep_items(tier):
+    """Exhaustive single-preemption sweep on the warm default tokenizer: thread A is suspended after its k-th line
+    event inside eyecite, for EVERY k of its extraction, while thread B extracts a text that uses the same
+    extractors; then A finishes.  Any per-call datum parked in an object the two calls share is exposed."""
+    out = []
+    for a, b in WARM_PAIRS:
+        for x, y in ((a, b), (b, a)) if tier != "quick" else ((a, b),):
+            total = _line_events(x)
+            for k in range(1, total + 1):
+                out.append({"kind": "threads", "texts": [x, y], "schedule": [k, 10 ** 9], "fresh": False, "sweep": True})
+    return out
+
+
 def phases(tier):
     n_hist, n_thr, n_stress = (1500, 400, 48) if tier == "quick" else (50000, 5000, 800)
     return [
@@ -583,5 +632,6 @@ def phases(tier):
         Phase("thread-schedules", "gen", strategy=_threads, n=n_thr),
         Phase("thread-stress", "gen", strategy=lambda: _threads(True), n=n_stress),
         Phase("cold-start-preemption-sweep", "enum", items=lambda: _cold_sweep_items(tier), chunk=4),
+        Phase("warm-preemption-sweep", "enum", items=lambda: _warm_sweep_items(tier), exhaustive=True, chunk=40),
         Phase("processes", "custom", fn=process_phase(tier)),
     ]
